@@ -55,7 +55,7 @@ Print Assumptions C18_restart_nonvacuous.
 Theorem C18_load_loop_roundtrip : forall cap s1 s2 rs,
   (forall r, In r rs -> (r_state r =? 2)%Z = true /\ rec_ok s1 r = true) ->
   NoDup (map r_cid rs) ->
-  load_loop cap (Some s1) (Some s2) rs [] = Ok (map (restored cap s2) rs).
+  load_loop cap s1 s2 rs [] = map (restored cap s2) rs.
 Proof. exact load_loop_roundtrip. Qed.
 Print Assumptions C18_load_loop_roundtrip.
 
@@ -64,18 +64,18 @@ Print Assumptions C18_load_loop_roundtrip.
 (* For ANY document (however the text was damaged before yaml.Unmarshal accepted it): every lease that
    loadByteArray puts in the table is Allocated, lies inside the file's net1, has a non-empty client id and
    occurs in the document. *)
-Theorem C18_load_filters : forall cap d n1 n2 t,
-  load cap d = Ok (n1, n2, t) ->
+Theorem C18_load_filters : forall cap d s1 s2 t,
+  load cap d = Ok (s1, s2, t) ->
   forall l, In l t ->
     allocated l = true
-    /\ (exists s1, n1 = Some s1 /\ contains (s_lan (n_cfg s1)) (r_ip (l_rec l)) = true)
+    /\ contains (s_lan (n_cfg s1)) (r_ip (l_rec l)) = true
     /\ r_cid (l_rec l) <> []
     /\ In (l_rec l) (d_leases d).
 Proof. exact load_filters. Qed.
 Print Assumptions C18_load_filters.
 
 Example C18_load_filters_nonvacuous :
-  exists n1 n2 t, load (fun _ => false) ex_doc = Ok (n1, n2, t) /\ t <> [].
+  exists s1 s2 t, load (fun _ => false) ex_doc = Ok (s1, s2, t) /\ t <> [].
 Proof. exact load_filters_nonvacuous. Qed.
 Print Assumptions C18_load_filters_nonvacuous.
 
@@ -102,40 +102,23 @@ Print Assumptions C18_new_in_home_refuted.
 
 (* ---------------- totality ---------------- *)
 
-(* Config.New neither panics nor loops, for every input outside the three recorded panic classes
-   (known_C18_panic: 1 = IPv6 lan in the file, 2 = valid lease but no net1, 3 = captured lease but no net2),
-   given that the NIC's home LAN is an IPv4 prefix. *)
-Theorem C18_new_total_partial : forall c cap i,
-  is4 (paddr (c_home c)) = true ->
-  known_C18_panic cap i = 0 ->
-  new c cap i <> Panic /\ new c cap i <> Fuel.
-Proof. exact new_total_partial. Qed.
-Print Assumptions C18_new_total_partial.
+(* Config.New neither panics nor loops, for EVERY configuration, capture state and input (missing file, YAML
+   error, any document).  Full strength since the three fix commits of DESIGN 11 #23 in /repo (nil-subnet guard
+   in loadByteArray, IPv4-only LAN in newSubnet); before them the faithful model refuted it in three classes
+   (valid lease but no net1; captured lease but no net2; IPv6 lan), see known_findings.txt "fixed:" lines. *)
+Theorem C18_new_total : forall c cap i, new c cap i <> Panic /\ new c cap i <> Fuel.
+Proof. exact new_total. Qed.
+Print Assumptions C18_new_total.
 
-(* the predicate is exact: every input of a recorded class panics *)
-Theorem C18_new_panics_in_class : forall c cap i,
-  cfg_ok c = true -> known_C18_panic cap i <> 0 -> new c cap i = Panic.
-Proof. exact new_panics_in_class. Qed.
-Print Assumptions C18_new_panics_in_class.
-
-Theorem C18_new_total_refuted_nil_net1 :
-  new ex_cfg (fun _ => false) (Doc ex_doc_nonet1) = Panic /\ known_C18_panic (fun _ => false) (Doc ex_doc_nonet1) = 2.
-Proof. exact new_total_refuted_net1. Qed.
-Print Assumptions C18_new_total_refuted_nil_net1.
-
-Theorem C18_new_total_refuted_nil_net2 :
-  new ex_cfg (fun _ => true) (Doc ex_doc_nonet2) = Panic /\ known_C18_panic (fun _ => true) (Doc ex_doc_nonet2) = 3.
-Proof. exact new_total_refuted_net2. Qed.
-Print Assumptions C18_new_total_refuted_nil_net2.
-
-Theorem C18_new_total_refuted_ipv6_lan :
-  new ex_cfg (fun _ => false) (Doc ex_doc_v6) = Panic /\ known_C18_panic (fun _ => false) (Doc ex_doc_v6) = 1.
-Proof. exact new_total_refuted_v6. Qed.
-Print Assumptions C18_new_total_refuted_ipv6_lan.
+(* the inputs on which the unrepaired constructor panicked now reset to an empty table *)
+Theorem C18_new_former_panics_reset :
+  (exists s, new ex_cfg (fun _ => true) (Doc ex_doc_nonet1) = Ok s /\ d_table s = [])
+  /\ (exists s, new ex_cfg (fun _ => true) (Doc ex_doc_v6) = Ok s /\ d_table s = []).
+Proof. exact new_former_panics_reset. Qed.
+Print Assumptions C18_new_former_panics_reset.
 
 Example C18_new_total_nonvacuous :
-  is4 (paddr (c_home ex_cfg)) = true /\ known_C18_panic (fun _ => false) (Doc ex_doc) = 0
-  /\ exists s, new ex_cfg (fun _ => false) (Doc ex_doc) = Ok s /\ d_table s <> [].
+  exists s, new ex_cfg (fun _ => false) (Doc ex_doc) = Ok s /\ d_table s <> [].
 Proof. exact new_total_nonvacuous. Qed.
 Print Assumptions C18_new_total_nonvacuous.
 
